@@ -555,10 +555,19 @@ where
         A: GLWEInfos,
         B: GGSWInfos,
     {
+        // The external product does not run on `a`: cmux and cmux_assign run it on the difference stored in `res`,
+        // cmux_assign_neg on a temporary with the larger of the two precisions, which it also takes from the scratch.
+        let in_infos: GLWELayout = GLWELayout {
+            n: res_infos.n(),
+            base2k: res_infos.base2k(),
+            k: res_infos.max_k().max(a_infos.max_k()),
+            rank: res_infos.rank(),
+        };
+        let tmp: usize = GLWE::<Vec<u8>>::bytes_of_from_infos(&in_infos);
         let res_dft: usize = self.bytes_of_vec_znx_dft((selector_infos.rank() + 1).into(), selector_infos.size());
-        res_dft
+        tmp + res_dft
             + self
-                .glwe_external_product_internal_tmp_bytes(res_infos, a_infos, selector_infos)
+                .glwe_external_product_internal_tmp_bytes(res_infos, &in_infos, selector_infos)
                 .max(self.vec_znx_big_normalize_tmp_bytes())
     }
 
